@@ -962,6 +962,8 @@ pub struct CtlReq {
     pub send_seq: u64,
     pub reply: Option<(String, u64, u64)>, // reply, lo, hi
     pub gone_expected: bool,
+    /// the caller dropped the future before a reply arrived; the machine may still take the request
+    pub abandoned: bool,
 }
 
 pub fn collect_ctl(log: &[Rec]) -> Vec<CtlReq> {
@@ -973,7 +975,12 @@ pub fn collect_ctl(log: &[Rec]) -> Vec<CtlReq> {
             Ev::StreamEnd => gone = true,
             Ev::Crash { .. } => gone = true,
             Ev::Built => gone = false,
-            Ev::CtlSend { req, on_demand, .. } => v.push(CtlReq { req: *req, on_demand: *on_demand, send_seq: r.seq, reply: None, gone_expected: gone }),
+            Ev::CtlSend { req, on_demand, .. } => v.push(CtlReq { req: *req, on_demand: *on_demand, send_seq: r.seq, reply: None, gone_expected: gone, abandoned: false }),
+            Ev::CtlAbandon { req } => {
+                if let Some(x) = v.iter_mut().find(|x| x.req == *req) {
+                    x.abandoned = true;
+                }
+            }
             Ev::CtlReply { req, reply, lo, hi } => {
                 if let Some(x) = v.iter_mut().find(|x| x.req == *req) {
                     x.reply = Some((reply.clone(), *lo, *hi));
@@ -1008,6 +1015,7 @@ pub fn mon_c11(log: &[Rec], f: &Flow, drained: bool, m: &mut Mon) {
     let timer_ok = timer_explained(log);
     for q in &reqs {
         match &q.reply {
+            None if q.abandoned => {}
             None => {
                 if drained {
                     m.judge("c11-every-request-answered", false, if q.gone_expected { "after-machine-gone" } else { "pending" }, || {
